@@ -1346,8 +1346,9 @@ DFGRIaddimlut(const char *filename, const void *imlut, int32 xdim, int32 ydim, i
     wref = 0; /* don't know ref to write next */
 
 done:
-    if (file_id != (-1))
-        Hclose(file_id);
+    /* closing writes the descriptors of everything added above */
+    if (file_id != (-1) && Hclose(file_id) == FAIL)
+        ret_value = FAIL;
 
     return ret_value;
 }
